@@ -335,6 +335,16 @@ func Gen07(t *rapid.T) Case07 {
 			}
 			c.Expect = "reject"
 		}
+		// ... or very many: a part counter of 8 bits wraps at 256, a fixed array of parts ends at 4 or 8
+		if n == 4 && rapid.IntRange(0, 19).Draw(t, "verymany") == 0 {
+			k := gen.SizeSteps[rapid.IntRange(0, len(gen.SizeSteps)-1).Draw(t, "nparts")]
+			front := make([]string, k)
+			for i := range front {
+				front[i] = "9"
+			}
+			parts = append(front, parts...)
+			c.Expect = "reject"
+		}
 		host := strings.Join(parts, ".")
 		if rapid.IntRange(0, 3).Draw(t, "dot") == 0 {
 			host += "."
